@@ -7,6 +7,7 @@ import (
 	"io"
 	"net"
 	"strings"
+	"time"
 
 	"github.com/mimecast/dtail/internal/config"
 	"github.com/mimecast/dtail/internal/io/dlog"
@@ -117,11 +118,42 @@ func (s *Server) handleConnection(ctx context.Context, conn net.Conn) {
 		return
 	}
 
-	s.stats.incrementConnections()
+	// Count the connection exactly once, and only if there is still a free slot (the
+	// check in the listener loop is done before the SSH handshake, others may have won).
+	if err := s.stats.incrementConnections(); err != nil {
+		dlog.Server.Error(err)
+		s.refuseConnection(sshConn, chans, reqs, err)
+		return
+	}
+	go func() {
+		// Every connection, however it ends (with or without a shell session), frees its slot.
+		if err := sshConn.Wait(); err != nil && err != io.EOF {
+			dlog.Server.Debug("Connection ended", err)
+		}
+		s.stats.decrementConnections()
+	}()
 	go gossh.DiscardRequests(reqs)
 	for newChannel := range chans {
 		go s.handleChannel(ctx, sshConn, newChannel)
 	}
+}
+
+// Refuse an already authenticated connection: answer its first channel request with
+// an error (so that the client gets to know why) before closing the connection.
+func (s *Server) refuseConnection(sshConn *gossh.ServerConn, chans <-chan gossh.NewChannel,
+	reqs <-chan *gossh.Request, reason error) {
+
+	go gossh.DiscardRequests(reqs)
+	select {
+	case newChannel, ok := <-chans:
+		if ok {
+			if err := newChannel.Reject(gossh.ResourceShortage, reason.Error()); err != nil {
+				dlog.Server.Debug(err)
+			}
+		}
+	case <-time.After(time.Second * 2):
+	}
+	sshConn.Close()
 }
 
 func (s *Server) handleChannel(ctx context.Context, sshConn gossh.Conn,
@@ -207,7 +239,6 @@ func (s *Server) handleRequests(ctx context.Context, sshConn gossh.Conn,
 				if err := sshConn.Wait(); err != nil && err != io.EOF {
 					dlog.Server.Error(user, err)
 				}
-				s.stats.decrementConnections()
 				dlog.Server.Info(user, "Good bye Mister!")
 				terminate()
 			}()
